@@ -61,6 +61,10 @@ func chainSyncPipelineSetup(s *rt.Sim, tier string) func() {
 		valWorkers := oneOf("cfg", 0, 0, 2, 8)
 		slowApply := pick("cfg", 3)
 		slowVal := pick("cfg", 3)
+		// knob (own stream): leave PipelineDrainTimeout unset in half of the runs, so that the
+		// library's default (30 s) is what protects a roll-backward; apply and validation then
+		// dwell for at most 50 ms per block, two orders of magnitude below what could use it up
+		drainUnset := rt.Choose("cfg.x", 2) == 1
 		blocks := fixBlocks()
 		nops := 3 + pick("cfg", 30)
 		var hist []csOp
@@ -125,12 +129,14 @@ func chainSyncPipelineSetup(s *rt.Sim, tier string) func() {
 			e := &ev{kind: "apply", idx: int(item.Tip().BlockNumber) - 1, start: rt.Stamp(), tip: item.Tip()}
 			evs = append(evs, e)
 			noteOutstanding()
-			switch slowApply {
-			case 1:
+			switch {
+			case drainUnset && slowApply > 0:
+				sleep(oneOf("op", time.Millisecond, 20*time.Millisecond, 50*time.Millisecond))
+			case slowApply == 1:
 				if chance("op", 1, 3) {
 					sleep(oneOf("op", time.Millisecond, 50*time.Millisecond, time.Second))
 				}
-			case 2:
+			case slowApply == 2:
 				sleep(oneOf("op", 20*time.Millisecond, 300*time.Millisecond, 2*time.Second))
 			}
 			e.end = rt.Stamp()
@@ -138,7 +144,11 @@ func chainSyncPipelineSetup(s *rt.Sim, tier string) func() {
 		}
 		eta0Provider := func(slot uint64) (string, error) {
 			if slowVal > 0 && chance("op", slowVal, 3) {
-				sleep(oneOf("op", time.Millisecond, 40*time.Millisecond, 700*time.Millisecond))
+				if drainUnset {
+					sleep(oneOf("op", time.Millisecond, 10*time.Millisecond, 40*time.Millisecond))
+				} else {
+					sleep(oneOf("op", time.Millisecond, 40*time.Millisecond, 700*time.Millisecond))
+				}
 			}
 			return validConwayEta0, nil
 		}
@@ -225,7 +235,11 @@ func chainSyncPipelineSetup(s *rt.Sim, tier string) func() {
 		)
 		// the drain before a roll-backward must not give up in this scenario: the slowest
 		// history (30 blocks x 2 s apply) needs a minute
-		cCfg.PipelineDrainTimeout = 30 * time.Minute
+		if drainUnset {
+			rt.Hit("cspl.default-drain-timeout")
+		} else {
+			cCfg.PipelineDrainTimeout = 30 * time.Minute
+		}
 		sCfg := chainsync.NewConfig(chainsync.WithRequestNextFunc(requestNext), chainsync.WithFindIntersectFunc(findIntersect))
 		co := connOpts{ntn: false, magic: 42}
 		so := connOpts{ntn: false, magic: 42, server: true}
